@@ -380,6 +380,8 @@ func hostileAlphabet() []hpkt {
 		{T: "STAT", Path: "d", Kind: "symlink", Link: "/outside/od"}, // replaces a directory that has children named like the outside ones
 		{T: "STAT", Path: "d", Kind: "symlink", Link: "../../outside/od"},
 		{T: "STAT", Path: "a", Kind: "dirsymlink", Link: "/outside/od"}, // directory and symlink bits together
+		{T: "STAT", Path: "d.z", Kind: "file", Size: 1},                 // siblings whose names continue with a byte below the separator
+		{T: "STAT", Path: "d-z", Kind: "file", Size: 1},
 		{T: "STAT", Path: "a/x", Kind: "file", Size: 3},
 		{T: "DATA", ID: 0, Size: 3}, // content for an id that was not requested
 		{T: "FIN"},
